@@ -11,6 +11,8 @@ def hierarchy_scripts(rng, tier):
     for i in range(60 if tier == "quick" else 3000):
         lines, sf = hier.gen_hier(rng)
         out.append(("hier-%d" % i, lines, sf))
+    import special
+    out += special.marker_scripts(rng, 40 if tier == "quick" else 1500)
     return out
 
 
